@@ -973,7 +973,8 @@ impl<'a> World<'a> {
                     // Symbol, tag name, XStr type, Uri or Str of the decoded value
                     4 => {
                         if zinc {
-                            (*self.rng.pick::<&str>(&["\"a\\u0000b\"", "`u\\u0000`", "{a:\"x\\u0000\"}", "[\"\\u0000\",1]"])).to_string()
+                            // (also: a byte order mark in front of valid Zinc, which the Rust decoder rejects)
+                            (*self.rng.pick::<&str>(&["\"a\\u0000b\"", "`u\\u0000`", "{a:\"x\\u0000\"}", "[\"\\u0000\",1]", "\u{feff}42kW", "\u{feff}ver:\"3.0\"\na\n1\n", " 42kW", "42kW "])).to_string()
                         } else {
                             (*self.rng.pick::<&str>(&[
                                 "{\"_kind\":\"ref\",\"val\":\"a\\u0000b\"}",
@@ -984,6 +985,11 @@ impl<'a> World<'a> {
                                 "{\"_kind\":\"uri\",\"val\":\"u\\u0000\"}",
                                 "\"s\\u0000\"",
                                 "[{\"_kind\":\"ref\",\"val\":\"\\u0000\"}]",
+                                // rows that carry tags which are not columns, duplicate columns, no columns at all
+                                "{\"_kind\":\"grid\",\"meta\":{\"ver\":\"3.0\"},\"cols\":[{\"name\":\"a\"}],\"rows\":[{\"a\":1,\"extra\":{\"_kind\":\"marker\"}},{\"other\":\"x\"}]}",
+                                "{\"_kind\":\"grid\",\"meta\":{\"ver\":\"3.0\"},\"cols\":[{\"name\":\"a\"},{\"name\":\"a\"}],\"rows\":[{\"a\":1}]}",
+                                "{\"_kind\":\"grid\",\"meta\":{\"ver\":\"3.0\"},\"cols\":[],\"rows\":[{\"a\":1},{}]}",
+                                "\u{feff}{\"a\":1}",
                                 "{\"_kind\":\"grid\",\"meta\":{\"ver\":\"3.0\"},\"cols\":[{\"name\":\"c\\u0000\"}],\"rows\":[{\"c\\u0000\":1}]}",
                             ]))
                             .to_string()
